@@ -8,6 +8,9 @@ import Pixman.Lemmas.TrapRows
 import Pixman.Lemmas.TrapShape
 import Pixman.Lemmas.TrapTri
 import Pixman.Lemmas.TrapSetup
+import Pixman.Lemmas.TrapWords
+import Pixman.Lemmas.TrapWordsImg
+import Pixman.Gen.EdgeWords
 import Pixman.Spec.ZeroSrc
 /-! C12 — trapezoid coverage is an exact sample count: property theorems.
 
@@ -683,6 +686,152 @@ example :
   · simp only [Pixman.Lemmas.TrapTri.TriFits]; decide
   · simp only [Pixman.Lemmas.TrapTri.area2]; decide
   · decide
+
+/-! ## words — the row bodies on memory (`Model/TrapWords.lean`) compute the per-pixel model
+
+  `Model/Trap.lean` updates a per-pixel array; the C code reads and writes words, nibbles and bytes.
+  `Model/TrapWords.lean` models the three row bodies literally on C10's little-endian byte memory (`Mem`,
+  `read8/read32/write8/write32`): a1 `MASK_BITS` / `LEFT_MASK` / `RIGHT_MASK`, start word, `while (nmiddle--)`
+  loop, end word; a4 `DEFINE_ALPHA` / `ADD_ALPHA` / `STEP_ALPHA` with `GET_4`/`PUT_4`; a8 `clip255`,
+  `ADD_SATURATE_8`, span-fill bookkeeping, `MEMSET_WRAPPED` flush.  `HoldsRow n m0 line m row`: `m` is a byte
+  memory in which every pixel `c < row.size` of the row at byte address `line`, read with C10's `fetchRaw`, is
+  `row[c]`; every pixel position `≥ row.size` reads as in `m0`; every byte before `line` or from the end of the
+  row's last 32-bit word on equals `m0`'s.  The column bounds are C04's (`span1_bounds`, `spanN_bounds`,
+  `row8Fill_cols`, `FillIn`).  `realizeRow` is C03's `realize` for one row: one C10 pixel store (`storeRaw`) per
+  changed cell.  The three stores after `MASK_BITS` are REGENERATED from the source text (`Gen/EdgeWords.lean`,
+  tools/gen_edgewords.py, fails closed) and bridged by `rfl`: seeded C12-m4 (`a++` for the whole middle run)
+  breaks the extraction obligation.  `rasterizeEdgesW_holds` composes the rows to the whole image. -/
+
+open Pixman.Model.Format Pixman.TrapWords in
+/-- the hand-written stores after `MASK_BITS` are the regenerated ones -/
+theorem a1Store_regenerated : @a1Store = @Pixman.Gen.EdgeWords.a1Store := rfl
+
+open Pixman.Model.Format Pixman.TrapWords in
+/-- a1, bit level: the start mask, `nmiddle` whole words and the end mask set exactly the pixels `L … R-1`; bytes
+    outside the words holding them are untouched -/
+theorem a1Span_bits (m : Mem) (line L R : Nat) (hLR : L ≤ R) :
+    (∀ c, fetch1 (a1Span m line (L : Int) (R : Int)) line c = if L ≤ c ∧ c < R then 1 else fetch1 m line c) ∧
+    (∀ a, a < line + 4 * (L / 32) ∨ line + 4 * ((R + 31) / 32) ≤ a → a1Span m line (L : Int) (R : Int) a = m a) ∧
+    (m.Bytes → (a1Span m line (L : Int) (R : Int)).Bytes) :=
+  Pixman.Lemmas.TrapWords.a1Span_spec m line L R hLR
+
+open Pixman.Model.Format Pixman.TrapWords in
+/-- a4: `ADD_ALPHA (a)` on the nibble of pixel `x` is C10's `STORE_4` of the model's `addAlpha4Val (FETCH_4) a` -/
+theorem addAlpha_eq_store4 (m : Mem) (hb : m.Bytes) (line x a : Nat) :
+    addAlphaW m (line + x / 2) (x % 2) a = store4 m line x (addAlpha4Val (fetch4 m line x) a) :=
+  Pixman.Lemmas.TrapWords.addAlphaW_eq_store4 m hb line x a
+
+open Pixman.Model.Format Pixman.TrapWords Pixman.Lemmas.TrapWords in
+theorem row1_words (m : Mem) (hb : m.Bytes) (line : Nat) (row : Array Nat)
+    (hold : ∀ c (h : c < row.size), fetchRaw m line c 1 = row[c]) (W : Int) (hsz : (row.size : Int) = W)
+    (hW : 0 ≤ W ∧ W ≤ 32767) (lx rx : Int) :
+    HoldsRow 1 m line (row1W m line W lx rx) (row1 row W lx rx) :=
+  Pixman.Lemmas.TrapWords.row1_words m hb line row hold W hsz hW lx rx
+
+open Pixman.Model.Format Pixman.TrapWords Pixman.Lemmas.TrapWords in
+theorem row4_words (m : Mem) (hb : m.Bytes) (line : Nat) (row : Array Nat)
+    (hold : ∀ c (h : c < row.size), fetchRaw m line c 4 = row[c]) (W : Int) (hsz : (row.size : Int) = W)
+    (hW : 0 ≤ W ∧ W ≤ 32767) (lx rx : Int) :
+    HoldsRow 4 m line (row4W m line W lx rx) (row4 row W lx rx) :=
+  Pixman.Lemmas.TrapWords.row4_words m hb line row hold W hsz hW lx rx
+
+open Pixman.Model.Format Pixman.TrapWords Pixman.Lemmas.TrapWords Pixman.Lemmas.TrapBounds in
+/-- a8, one sub-row with the span-fill bookkeeping: `R8 m0 line m row` — `m` is a byte memory whose bytes
+    `line … line + width - 1` are `row` and whose other bytes are `m0`'s (`m0`: the memory before the pixel row was
+    started; the pending fill is carried across its sub-rows and is the same on both sides) -/
+theorem row8Fill_words (m0 m : Mem) (line : Nat) (row : Array Nat) (h : R8 m0 line m row)
+    (W : Int) (hsz : (row.size : Int) = W) (hW : 0 ≤ W ∧ W ≤ 32767) (lx rx : Int) (fs : Fill) (hin : FillIn W fs) :
+    R8 m0 line (row8FillW m line W lx rx fs).1 (row8Fill row W lx rx fs).1 ∧
+    (row8FillW m line W lx rx fs).2 = (row8Fill row W lx rx fs).2 ∧
+    FillIn W (row8Fill row W lx rx fs).2 :=
+  Pixman.Lemmas.TrapWords.row8Fill_words m0 m line row h W hsz hW lx rx fs hin
+
+open Pixman.Model.Format Pixman.TrapWords Pixman.Lemmas.TrapWords Pixman.Lemmas.TrapBounds in
+/-- a8: the flush (`MEMSET_WRAPPED (…, 0xff, …)` or `ADD_SATURATE_8`) on bytes = `flushFill` -/
+theorem flushFill_words (m0 m : Mem) (line : Nat) (row : Array Nat) (h : R8 m0 line m row)
+    (W : Int) (hsz : (row.size : Int) = W) (fs : Fill) (hin : FillIn W fs) :
+    R8 m0 line (flushFillW m line fs) (flushFill row fs) :=
+  Pixman.Lemmas.TrapWords.flushFill_words m0 m line row h W hsz fs hin
+
+open Pixman.Model.Format Pixman.Lemmas.TrapWords in
+/-- the pixels of the row and the frame determine the memory -/
+theorem holdsRow_unique (n : Nat) (hn : Depth n) (m0 : Mem) (line : Nat) (m1 m2 : Mem) (row : Array Nat)
+    (h1 : HoldsRow n m0 line m1 row) (h2 : HoldsRow n m0 line m2 row) : m1 = m2 :=
+  Pixman.Lemmas.TrapWords.holdsRow_unique n hn m0 line m1 m2 row h1 h2
+
+open Pixman.Model.Format Pixman.Lemmas.TrapWords in
+/-- **rowWords_eq_realize** — for C03's frame (`Props/C03Frame.lean`, `realize`): any memory that holds the new row
+    and differs from `m` in nothing else IS `m` after one C10 pixel store per changed cell of the row
+    (`realizeRow n line old new m = (List.range new.size).foldl (fun m c => if new[c] = old[c] then m else
+    storeRaw m line c n new[c]) m`, the row-`r` part of C03's `realize` with `line = fimg.row r`) -/
+theorem rowWords_eq_realize (n : Nat) (hn : Depth n) (m : Mem) (hb : m.Bytes) (line : Nat) (old new : Array Nat)
+    (hsz : new.size = old.size) (hold : ∀ c (h : c < old.size), fetchRaw m line c n = old[c])
+    (m' : Mem) (h : HoldsRow n m line m' new) : m' = realizeRow n line old new m :=
+  Pixman.Lemmas.TrapWords.holdsRow_eq_realize n hn m hb line old new hsz hold m' h
+
+open Pixman.Model.Format Pixman.TrapWords Pixman.Lemmas.TrapWords in
+/-- a1: the word-level row update of `rasterize_edges_1` is `realize` of `row1` -/
+theorem row1_words_eq_realize (m : Mem) (hb : m.Bytes) (line : Nat) (row : Array Nat)
+    (hold : ∀ c (h : c < row.size), fetchRaw m line c 1 = row[c]) (W : Int) (hsz : (row.size : Int) = W)
+    (hW : 0 ≤ W ∧ W ≤ 32767) (lx rx : Int) :
+    row1W m line W lx rx = realizeRow 1 line row (row1 row W lx rx) m :=
+  Pixman.Lemmas.TrapWords.row1_words_eq_realize m hb line row hold W hsz hW lx rx
+
+open Pixman.Model.Format Pixman.TrapWords Pixman.Lemmas.TrapWords in
+/-- a4: the nibble-level row update of `rasterize_edges_4` is `realize` of `row4` -/
+theorem row4_words_eq_realize (m : Mem) (hb : m.Bytes) (line : Nat) (row : Array Nat)
+    (hold : ∀ c (h : c < row.size), fetchRaw m line c 4 = row[c]) (W : Int) (hsz : (row.size : Int) = W)
+    (hW : 0 ≤ W ∧ W ≤ 32767) (lx rx : Int) :
+    row4W m line W lx rx = realizeRow 4 line row (row4 row W lx rx) m :=
+  Pixman.Lemmas.TrapWords.row4_words_eq_realize m hb line row hold W hsz hW lx rx
+
+open Pixman.Model.Format Pixman.TrapWords Pixman.Lemmas.TrapWords Pixman.Lemmas.TrapFill in
+/-- a8, one whole pixel row: every sequence of sub-row spans with the span-fill bookkeeping, then the flush, on
+    bytes, is `realize` of the naive per-sub-row accumulation `row8` (with `spanfill_eq_naive`) -/
+theorem row8_words_eq_realize (m : Mem) (hb : m.Bytes) (line : Nat) (row : Array Nat)
+    (hold : ∀ c (h : c < row.size), fetchRaw m line c 8 = row[c]) (W : Int) (hsz : (row.size : Int) = W)
+    (hW : 0 ≤ W ∧ W ≤ 32767) (spans : List (Int × Int)) :
+    flushFillW (fillSpansW line W spans (m, {})).1 line (fillSpansW line W spans (m, {})).2 =
+      realizeRow 8 line row (naiveSpans W spans row) m :=
+  Pixman.Lemmas.TrapWords.row8_words_eq_realize m hb line row hold W hsz hW spans
+
+open Pixman.Model.Format Pixman.TrapWords Pixman.Lemmas.TrapWordsImg in
+/-- **the whole rasteriser on memory.**  `rasterizeEdgesW` runs the word / nibble / byte row bodies over the rows
+    `rasterize_edges_N` visits (`walkRows`; `line = buf + row·stride`, a8 fill state carried inside a pixel row and
+    flushed at its end).  `HoldsImg n bits stride m img`: `m` is a byte memory in which pixel `(c, r)` of the image at
+    byte address `bits`, rowstride `stride` words, read with C10's `fetchRaw`, is cell `(r, c)` of `img`.
+    If `m` holds `img` (rows fit the stride, `t ≤ b` grid rows inside the image — what `sampleRows_in_image` gives),
+    the memory after the run holds `rasterizeEdges n img l r t b`, for ARBITRARY edges; and (`FrameImg`) every padding
+    position of every row and every byte before / after the image is unchanged.  With `holdsRow_unique` row by row
+    this memory is C03's `realize`. -/
+theorem rasterizeEdgesW_holds (n : Nat) (hn : Depth n) (bits stride : Nat) (m : Mem) (img : Img)
+    (h : HoldsImg n bits stride m img) (hs : Pixman.Lemmas.TrapWordsImg.Shaped img) (hw : img.width ≤ 32767)
+    (hfit : img.width * n ≤ 32 * stride) (hrun : img.runaway = false) (l r : Edge) (t b : Int)
+    (ht : IsGridRow n t) (hb : IsGridRow n b) (htb : t ≤ b) (ht0 : 0 ≤ t)
+    (hbh : b / 65536 < (img.height : Int)) (hb2 : b ≤ 2147483647) :
+    HoldsImg n bits stride (rasterizeEdgesW id n bits stride img.width m l r t b) (rasterizeEdges n img l r t b) ∧
+    FrameImg n bits stride img.width img.height m (rasterizeEdgesW id n bits stride img.width m l r t b) :=
+  Pixman.Lemmas.TrapWordsImg.rasterizeEdgesW_holds n hn bits stride m img h hs hw hfit hrun l r t b ht hb htb ht0 hbh hb2
+
+open Pixman.Model.Format Pixman.TrapWords Pixman.Lemmas.TrapWordsImg in
+/-- what the driver runs for its flag `w` (`rasterizeEdgesWB`: the memory kept as the array of its first `total` bytes)
+    is `rasterizeEdgesW` with `ν` = "read the first `total` bytes out and back" (`snap`) after every row body -/
+theorem rasterizeEdgesWB_mem (total byte n bits stride : Nat) (width : Int) (s : Array Nat) (l r : Edge) (t b : Int) :
+    memOf (rasterizeEdgesWB total byte n bits stride width s l r t b) byte =
+      rasterizeEdgesW (snap total byte) n bits stride width (memOf s byte) l r t b :=
+  Pixman.Lemmas.TrapWordsImg.rasterizeEdgesWB_mem total byte n bits stride width s l r t b
+
+open Pixman.Model.Format Pixman.TrapWords in
+/-- non-vacuity: on a zero memory, the a1 span of pixels 30 … 69 of a row at byte 8 (start word, one whole word, end
+    word) reads 1 exactly there; the a4 `ADD_ALPHA` of 5 on a nibble holding 13 saturates to 15 and leaves its
+    neighbour; one a8 sub-row with a long span leaves the interior to the pending fill -/
+example :
+    ((List.range 96).filter fun c => fetch1 (a1Span (fun _ => 0) 8 30 70) 8 c = 1) = (List.range 70).drop 30 ∧
+    a1Span (fun _ => 0) 8 30 70 7 = 0 ∧ a1Span (fun _ => 0) 8 30 70 20 = 0 ∧
+    (fetch4 (addAlphaW (fun _ => 0xd7) 100 1 5) 100 1, fetch4 (addAlphaW (fun _ => 0xd7) 100 1 5) 100 0) = (15, 7) ∧
+    ((List.range 12).map fun c => (row8FillW (fun _ => 0) 0 12 65536 655360 {}).1 c) = [0, 17, 0, 0, 0, 0, 0, 0, 0, 0, 0, 0] ∧
+    (row8FillW (fun _ => 0) 0 12 65536 655360 {}).2 = { start := 2, stop := 10, size := 1 } := by
+  decide
 
 /-! ## R6 — the regenerated `zero_src_has_no_effect` table
 
